@@ -19,7 +19,7 @@ func init() {
 		Files: []string{"queue.go"},
 		Funcs: []string{"ConcurrentQueue", "ConcurrentStack"},
 		Gen:   genC08,
-		Rule: "P producers x K consumers (quick 1..4 each with 1..4 ops, thorough up to 16 x 16) on a ConcurrentQueue/ConcurrentStack wrapping the real LinkedListQueue " +
+		Rule: "P producers x K consumers (quick 1..4 each with 1..4 ops, thorough up to 16 x 16) on a ConcurrentQueue/ConcurrentStack wrapping the real LinkedListQueue (or a deliberately unsafe slice structure, 1 in 3 of those bounded: it rejects insertions beyond its capacity) " +
 			"(statement-level yields inside it) or a harness slice queue/stack with a yield between its load and store; final single-threaded drain; " +
 			"history checked with porcupine against a sequential FIFO/LIFO model plus direct duplicate/lost/invented checks; " +
 			"non-trivial = at least two calls overlapped in the recorded history; distinct = distinct context-switch signature" +
@@ -35,6 +35,7 @@ type c08Scenario struct {
 	Threads [][]string `json:"threads"`
 	Warm    int        `json:"warm_up_backlog,omitempty"` // > 0: two sequential backlogs of this size go through the wrapper first
 	Nested  bool       `json:"wrapper_of_a_wrapper_both_handles_used,omitempty"`
+	Bound   int        `json:"wrapped_structure_capacity,omitempty"`
 	Trim    []int      `json:"node_pool_trimmed_before,omitempty"` // [m, n]: m values go through the wrapper, then the owner trims the wrapped list's node pool to n
 
 	h          *Hist
@@ -59,6 +60,11 @@ func genC08(t *simrt.Tape, tier string) Scenario {
 	}
 	// a ConcurrentQueue/Stack is itself a Queue/Stack: it may be wrapped again, and both handles may be used
 	sc.Nested = t.Bool(1, 5)
+	if strings.HasSuffix(sc.Kind, "-slice") && t.Bool(1, 3) {
+		// the wrapped structure is bounded: it rejects insertions beyond its capacity with ErrQueueIsFull/ErrStackIsFull,
+		// which the wrapper hands through - and goes on working afterwards
+		sc.Bound = 1 + t.Choose(3)
+	}
 	maxT, maxOps := 4, 4
 	if tier == "thorough" {
 		if t.Bool(1, 3) {
@@ -112,11 +118,16 @@ func (sc *c08Scenario) Nontrivial(res *simrt.Result) bool {
 type sliceQueue struct {
 	s     *simrt.Sim
 	items []int
+	bound int
 }
 
-func (q *sliceQueue) Offer(v int) error {
+func (q *sliceQueue) Offer(v int) error { return q.insert(v, fpgo.ErrQueueIsFull) }
+func (q *sliceQueue) insert(v int, full error) error {
 	cur := q.items
 	q.s.Yield()
+	if q.bound > 0 && len(cur) >= q.bound {
+		return full
+	}
 	n := make([]int, len(cur)+1)
 	copy(n, cur)
 	n[len(cur)] = v
@@ -137,7 +148,7 @@ func (q *sliceQueue) Poll() (int, error) {
 	return v, nil
 }
 func (q *sliceQueue) Take() (int, error) { return q.Poll() }
-func (q *sliceQueue) Push(v int) error   { return q.Offer(v) }
+func (q *sliceQueue) Push(v int) error   { return q.insert(v, fpgo.ErrStackIsFull) }
 func (q *sliceQueue) Pop() (int, error) {
 	cur := q.items
 	q.s.Yield()
@@ -164,9 +175,9 @@ func (sc *c08Scenario) Run(s *simrt.Sim) {
 		ll = fpgo.NewLinkedListQueue[int]()
 		stack = ll
 	case "queue-slice":
-		queue = &sliceQueue{s: s}
+		queue = &sliceQueue{s: s, bound: sc.Bound}
 	case "stack-slice":
-		stack = &sliceQueue{s: s}
+		stack = &sliceQueue{s: s, bound: sc.Bound}
 	}
 	var cq *fpgo.ConcurrentQueue[int]
 	var cs *fpgo.ConcurrentStack[int]
@@ -304,7 +315,7 @@ type c08Out struct {
 	err   bool
 }
 
-func c08Model(lifo bool) porcupine.Model {
+func c08Model(lifo bool, bound int) porcupine.Model {
 	return porcupine.Model{
 		Init: func() interface{} { return "" },
 		Step: func(state, input, output interface{}) (bool, interface{}) {
@@ -313,6 +324,10 @@ func c08Model(lifo bool) porcupine.Model {
 			out := output.(c08Out)
 			if in.push {
 				if out.err {
+					// rejected: legal exactly when the bounded structure is full; nothing changes
+					return bound > 0 && strings.Count(st, ",") >= bound, st
+				}
+				if bound > 0 && strings.Count(st, ",") >= bound {
 					return false, st
 				}
 				return true, st + fmt.Sprintf("%d,", in.val)
@@ -388,8 +403,12 @@ func (sc *c08Scenario) Check(res *simrt.Result) []Violation {
 		}
 		switch op.Name {
 		case "Offer", "Put", "Push":
-			pushed[op.Arg.(int)] = true
-			if op.Err != nil {
+			full := map[bool]error{true: fpgo.ErrStackIsFull, false: fpgo.ErrQueueIsFull}[op.Name == "Push"]
+			if op.Err == nil {
+				pushed[op.Arg.(int)] = true
+			} else if sc.Bound > 0 && op.Err == full {
+				sc.probes["insertion-rejected-by-the-bounded-wrapped-structure"]++
+			} else {
 				vs = append(vs, Violation{Clause: "unexpected-error", Fingerprint: sc.Kind + "." + op.Name, Detail: op.String()})
 			}
 			pops = append(pops, porcupine.Operation{ClientId: op.TID, Input: c08In{push: true, val: op.Arg.(int)}, Call: int64(op.Inv), Output: c08Out{err: op.Err != nil}, Return: int64(op.Ret)})
@@ -442,7 +461,7 @@ func (sc *c08Scenario) Check(res *simrt.Result) []Violation {
 			if len(pops) > 24 {
 				budget = 300 * time.Millisecond
 			}
-			r := porcupine.CheckOperationsTimeout(c08Model(isStack), pops, budget)
+			r := porcupine.CheckOperationsTimeout(c08Model(isStack, sc.Bound), pops, budget)
 			switch r {
 			case porcupine.Illegal:
 				vs = append(vs, Violation{Clause: "not-linearizable", Fingerprint: sc.Kind, Detail: "porcupine: no sequential order explains the history: " + histString(h)})
